@@ -115,6 +115,29 @@ func genC07(repo string) (string, error) {
 		{"BTree", "GetAt", "src_bt_GetAt"},
 		{"BTree", "AscendGreaterOrEqual", "src_bt_AscendGreaterOrEqual"},
 		{"BTree", "DescendLessOrEqual", "src_bt_DescendLessOrEqual"},
+		// the rest of what model/C07_BTree.v transcribes (slice helpers, get/min/max, the exported wrappers)
+		{"items", "insertAt", "src_bt_items_insertAt"},
+		{"items", "removeAt", "src_bt_items_removeAt"},
+		{"items", "pop", "src_bt_items_pop"},
+		{"items", "truncate", "src_bt_items_truncate"},
+		{"children", "insertAt", "src_bt_children_insertAt"},
+		{"children", "removeAt", "src_bt_children_removeAt"},
+		{"children", "pop", "src_bt_children_pop"},
+		{"children", "truncate", "src_bt_children_truncate"},
+		{"indices", "truncate", "src_bt_indices_truncate"},
+		{"node", "mutableFor", "src_bt_node_mutableFor"},
+		{"node", "mutableChild", "src_bt_node_mutableChild"},
+		{"node", "get", "src_bt_node_get"},
+		{"", "min", "src_bt_min"},
+		{"", "max", "src_bt_max"},
+		{"BTree", "Delete", "src_bt_Delete"},
+		{"BTree", "DeleteMin", "src_bt_DeleteMin"},
+		{"BTree", "DeleteMax", "src_bt_DeleteMax"},
+		{"BTree", "Get", "src_bt_Get"},
+		{"BTree", "Min", "src_bt_Min"},
+		{"BTree", "Max", "src_bt_Max"},
+		{"BTree", "Len", "src_bt_Len"},
+		{"BTree", "getRootLength", "src_bt_getRootLength"},
 	} {
 		if err := o.srcDef(bt, x.recv, x.name, x.coq); err != nil {
 			return "", err
